@@ -85,6 +85,8 @@ func runC12Cell(t *testing.T, l lat, rep *Report, boundaryOnly bool) (fails []c1
 	if l.Enc != "off" {
 		keys = [][]byte{latKey(l.KeyLen)}
 	}
+	simFrag = l.Frag
+	defer func() { simFrag = 0 }()
 	res := inBubble(t, func(b *bubble) {
 		installDetRand()
 		sPing := &pingRec{}
@@ -476,6 +478,13 @@ func TestC12(t *testing.T) {
 		rep.Evaluations, rep.Distinct = n, n
 		rep.Samples = append(rep.Samples, rp.L.String())
 		return
+	}
+	// every cell twice: streams delivered whole, and in fragments of 1, 2, 3 or 5 bytes
+	n0 := len(cells)
+	for i := 0; i < n0; i++ {
+		l := cells[i]
+		l.Frag = []int{1, 2, 3, 5}[i%4]
+		cells = append(cells, l)
 	}
 	for i, l := range cells {
 		if !mine(i) {
